@@ -536,7 +536,7 @@ def refDelete (r : Ref) : M Bool :=
 /-- runtime.go:109 rt.putValue -/
 def rtPutValue (r : Ref) (value : V) : M Unit := do
   let name ← refPutValue r value
-  if name != "" then do let _ ← defineProperty gObj name (p111 value) false; pure ()
+  if name != "" then objPut gObj name value false
   else pure ()
 
 /-- value.go:476 Value.resolve -/
@@ -947,6 +947,16 @@ def evalE : Nat → FE → M MV
       let lv ← resolve (← evalE n a)
       let rv ← resolve (← evalE n b)
       pure (.val (binSeq lv rv))
+    | .cond t a b => do                                                              -- :249 conditional expression
+      let test ← evalE n t
+      let tv ← resolve test
+      if truthy tv then do let v ← resolve (← evalE n a); pure (.val v)
+      else do let v ← resolve (← evalE n b); pure (.val v)
+    | .delX e1 => do                                                                 -- :341 unary DELETE
+      let target ← evalE n e1
+      (match target with
+       | .ref r => do let b ← refDelete r; pure (.val (.bool b))
+       | .val _ => pure (.val (.bool true)))
     | .not a => do
       let v ← resolve (← evalE n a)
       pure (.val (.bool (!truthy v)))
